@@ -580,6 +580,39 @@ func emit(g group) (string, []string) {
 				}
 			}
 			fmt.Fprintf(&b, "/-- %s: package-level variables that none of `%s` assigns at its top level %s -/\ndef %s : List String := [%s]\n", f.File, f.Func, f.Doc, f.Name, strings.Join(un, ", "))
+		case "widthfn":
+			// String: how the function computes the value stored under `Ident` (an assignment `Ident = …` or a composite-literal
+			// field `Ident: …` whose printed value contains `Sel`): "runes" when it uses utf8.RuneCountInString, "bytes" when it uses len(
+			fd := findFunc(af, f.Func)
+			if fd == nil {
+				fail("function not found")
+				continue
+			}
+			txt := ""
+			ast.Inspect(fd.Body, func(n ast.Node) bool {
+				switch x := n.(type) {
+				case *ast.AssignStmt:
+					if len(x.Lhs) == 1 && len(x.Rhs) == 1 && show(x.Lhs[0]) == f.Ident && strings.Contains(show(x.Rhs[0]), f.Sel) && txt == "" {
+						txt = show(x.Rhs[0])
+					}
+				case *ast.KeyValueExpr:
+					if show(x.Key) == f.Ident && strings.Contains(show(x.Value), f.Sel) && txt == "" {
+						txt = show(x.Value)
+					}
+				}
+				return true
+			})
+			val := ""
+			switch {
+			case strings.Contains(txt, "utf8.RuneCountInString("+f.Sel+")"):
+				val = "runes"
+			case strings.Contains(txt, "len("+f.Sel+")"):
+				val = "bytes"
+			default:
+				fail("no value of `" + f.Ident + "` mentioning `" + f.Sel + "` with a recognised width function: `" + txt + "`")
+				continue
+			}
+			fmt.Fprintf(&b, "/-- %s: %s — `%s` is `%s` %s -/\ndef %s : String := %s\n", f.File, f.Func, f.Ident, txt, f.Doc, f.Name, leanStr(val))
 		case "callarg":
 			// String: the printed Sel-th argument of the first call of `Ident` in the function (whole file when Func is empty)
 			var scope ast.Node = af
